@@ -162,7 +162,22 @@ func runC19(o *Out, rng *Rng, tier string, replay string) {
 			for _, r := range rs {
 				s := seeds[r]
 				rand.Seed(s)
-				i, err := v.Choose()
+				var i int
+				var err error
+				paniced := func() (p bool) {
+					defer func() {
+						if x := recover(); x != nil {
+							p = true
+							o.Fail(MonitorFailure{Property: "C19", Signature: "choose-panics",
+								What: fmt.Sprintf("choose() over total weight %d panicked: %v", tw, x), Replay: ops})
+						}
+					}()
+					i, err = v.Choose()
+					return false
+				}()
+				if paniced {
+					break
+				}
 				code := int64(i)
 				if err == model.ENOWEIGHTSDEFINED {
 					code = -1
